@@ -455,13 +455,18 @@ def eval_lines_counter(prog) -> List[str]:
     layouts = [["INT", "NEWLINE", "TAB", "IDENTIFIER", "NEWLINE", "RBRACE", "NEWLINE", "INT"],
                ["IDENTIFIER", "ESCAPED_NEWLINE", "IDENTIFIER", "SEMI_COLON", "NEWLINE", "NEWLINE", "NEWLINE", "NEWLINE"],
                ["NEWLINE", "NEWLINE", "NEWLINE", "IDENTIFIER", "NEWLINE", "IDENTIFIER", "IDENTIFIER", "NEWLINE"],
-               ["LBRACE", "NEWLINE", "IDENTIFIER", "IDENTIFIER", "IDENTIFIER", "IDENTIFIER", "IDENTIFIER", "NEWLINE"]]
+               ["LBRACE", "NEWLINE", "IDENTIFIER", "IDENTIFIER", "IDENTIFIER", "IDENTIFIER", "IDENTIFIER", "NEWLINE"],
+               # tokens whose text spans several lines count by their NEWLINE tokens only (a block comment is one statement
+               # line for the block-start arithmetic of IsBlockStart)
+               [("MULT_COMMENT", "/*\n a\n b\n*/"), "NEWLINE", ("STRING", '"a\\\nb"'), "NEWLINE", ("COMMENT", "// x"), "NEWLINE",
+                ("MULT_COMMENT", "/* one */"), "NEWLINE"]]
     for kinds in layouts:
         for n in (1, 2, 5, 8):
             for scope, hist in (("Function", ["IsFuncDeclaration", "IsBlockStart", "IsAssignation"]),
                                 ("ControlStructure", ["IsBlockStart", "IsControlStatement", "IsAssignation"]),
                                 ("GlobalScope", ["IsEmptyLine", "IsVarDeclaration"])):
-                toks = [tok(k, 1 + i, 1) for i, k in enumerate(kinds)]
+                toks = [tok(k, 1 + i, 1) if isinstance(k, str) else tok(k[0], 1 + i, 1, k[1]) for i, k in enumerate(kinds)]
+                kinds = [k if isinstance(k, str) else k[0] for k in kinds]
                 parent = make_scope("Function") if scope == "ControlStructure" else None
                 sc = StubContext(prog, toks, history=hist, scope=scope, scope_attrs={"lines": 4, "parent": parent, "lvl": 1 if parent else 0},
                                  tkn_scope=n)
@@ -1025,3 +1030,5 @@ def check(run, prog):
     rule_counters(run, prog)
     rule_outer_effect(run, prog)
     rule_tabstops(run, prog)
+    from .c09_linesplit import rule_line_split
+    rule_line_split(run, prog, "R-3.6")
